@@ -2,7 +2,7 @@
 from __future__ import annotations
 from engine.registry import Registry
 from engine import sortmodel, polymodel
-from contracts import option, sorting, align, compare
+from contracts import option, sorting, align, compare, order_lemmas
 
 _CONTRACT_MODULES = [option, sorting, align, compare]
 
@@ -42,6 +42,28 @@ PROPS = {
                      "module invariant; the per-event rule obligations are what is mechanised"],
         explanation="All clauses of C14 are postconditions/invariants of get_options, set_options, global_options and a "
                     "whole-repository frame scan; every obligation is discharged by z3 with dicts as arrays.",
+    ),
+    "C07": dict(
+        level="other",
+        contracts=["numpoly.greater", "numpoly.greater_equal", "numpoly.less", "numpoly.less_equal",
+                   "numpoly.maximum", "numpoly.minimum", "numpoly.equal", "numpoly.not_equal", "numpoly.glexsort"],
+        lemmas=[order_lemmas.obligations],
+        trusted_base=COMMON_TRUSTED + [
+            "assumed contract numpoly.align_polynomials / align_exponents (fresh results sharing rows, names, shape; "
+            "each denotes its operand) - to be discharged under C04",
+            "assumed contract numpoly.where at abstract-value level - to be discharged under C09",
+            "assumed contracts of ndpoly.coefficients / .exponents / .values / .ravel (baseclass model, engine/polymodel.py)",
+            "numpy ufunc / masked-assignment / zeros / ones axioms (engine/polymodel.py)"],
+        assumptions=["A1: coefficients are mathematical reals (no NaN, no complex order)",
+                     "the order laws are proved on the specification of the contracts for operands sharing exponent rows; "
+                     "that pairwise alignment does not change the order (adding all-zero rows) is part of align's contract (C04)"],
+        explanation="greater/greater_equal/less/less_equal/equal: loop invariant with ghost `last differing term`, postcondition = "
+                    "the documented order on the aligned operands, proved for arrays of >=1 dimensions with and without out=; "
+                    "the 0-d branch is proved to recurse into its own contract on raveled operands (value clause of that branch: "
+                    "bounded only). maximum/minimum: same invariant + where() contract. not_equal: complement of equal (peeled loop). "
+                    "Order laws (trichotomy, complements, antisymmetry, transitivity, constants) are lemmas over the contract's spec. "
+                    "All under symbolic sort options. Bounded run-time cross-check of the same clauses.",
+        not_decided=["complex / NaN coefficients", "value clause of the 0-d recursion (bounded only)"],
     ),
     "C18": dict(
         level="other",
